@@ -1937,6 +1937,10 @@ impl Fs {
             match op {
                 // Directory's own creation
                 PendingOp::CreateDir { path: p, .. } if p == path => true,
+                // ... together with a pending removal of an earlier directory at the
+                // same path: flushing the creation but not the removal that precedes
+                // it would leave the removal to be replayed on top of the new directory
+                PendingOp::RemoveDir { path: p } if p == path => true,
                 // Files/dirs/symlinks/hardlinks created in this directory
                 PendingOp::CreateFile { path: p, .. } => p.parent() == Some(path),
                 PendingOp::CreateDir { path: p, .. } => p.parent() == Some(path),
